@@ -180,7 +180,10 @@ def impl_decode(b, info_only=False, ignore_expect=False):
     data = None
     if not info_only:
         td = m.template_data.value
-        data = ''.join(str(int(v)) for subset in td.decoded_values_all_subsets for v in subset)
+        try:
+            data = ''.join(str(int(v)) for subset in td.decoded_values_all_subsets for v in subset)
+        except (TypeError, ValueError):
+            data = 'opaque'  # a real template (sample files): the values are not one-bit elements
     return {'sections': secs, 'starts': starts, 'data': data, 'serialized': ser.hex(), '_msg': m}
 
 
